@@ -206,3 +206,23 @@ harness_stubbed!(c18_from_unit_constructors, unwind = 2,
         && hands_over(|| x.nanoseconds(), Unit::Nanosecond, x), "f64 TimeUnits helpers");
     v_cover!(x < 0.0 && x != x.trunc(), "negative non-integer reachable");
 });
+
+// Un-stubbed twin on whole counts (|k| < 32768): the constructors are run end to end with the real Unit x f64 and compared with
+// the exact integer count, so that a change which re-routes a constructor through another unit (extra float rounding before the
+// truncation) comes back with a natively reproducible input.
+harness!(c18_from_unit_small_inputs, unwind = 2, |s| {
+    let k = s.i16();
+    let which = s.u8();
+    s.assume(which < 6);
+    let x = k as f64;
+    let (d, per): (Duration, i128) = match which {
+        0 => (Duration::from_nanoseconds(x), 1),
+        1 => (Duration::from_microseconds(x), 1_000),
+        2 => (Duration::from_milliseconds(x), 1_000_000),
+        3 => (Duration::from_seconds(x), NPS as i128),
+        4 => (Duration::from_hours(x), 3_600 * NPS as i128),
+        _ => (Duration::from_days(x), NPD as i128),
+    };
+    v_assert!(s, Some(d.to_parts()) == shift_parts((0, 0), k as i128 * per), "from_<unit>(k) counts exactly k units for whole k");
+    v_cover!(k < -1024 && which == 1, "negative microsecond count reachable");
+});
